@@ -334,6 +334,14 @@ def legacy_file_opened(prog, rep):
         bad = (good[0], "does not lie on every path to the constructor's normal exit")
     rep.check(bad is None, "LEGACY-OPEN", fi.short, "every path initialises the handle before connecting", f"{len(good)} init call(s) dominate {len(conns)} connect call(s)", (f"`{norm(bad[0])[:60]}` {bad[1]}: once any PeeweeStorage has been opened in the process the shared handle keeps pointing at THAT file, so the store the migration opens for the legacy database silently reads another profile's file (or the wrong one of testing / production) and the new store is filled from it" if bad else ""), fi.loc(bad[0]) if bad else fi.loc())
     rep.floor("connect() calls in PeeweeStorage.__init__", len(conns), 1)
+    # opening must not rewrite the file: pragmas that are stored in the database header / change its journal
+    FILE_CHANGING = {"journal_mode", "auto_vacuum", "page_size", "user_version", "application_id", "encoding", "schema_version", "locking_mode"}
+    for c in [x for x in ast.walk(fi.mod.tree) if isinstance(x, ast.Call)]:
+        for k in c.keywords:
+            if k.arg == "pragmas" and isinstance(k.value, (ast.Dict, ast.List, ast.Tuple)):
+                keys = [x.value for x in (k.value.keys if isinstance(k.value, ast.Dict) else [e.elts[0] for e in k.value.elts if isinstance(e, (ast.Tuple, ast.List)) and e.elts]) if isinstance(x, ast.Constant)]
+                hit = sorted(set(map(str, keys)) & FILE_CHANGING)
+                rep.check(not hit, "LEGACY-RO", "PeeweeStorage", f"pragmas {keys}", "no pragma that is persisted in the file", f"the peewee database is opened with pragmas {hit}: these are written into the database file (journal_mode=wal rewrites the header and leaves -wal / -shm files), so merely opening the legacy store for the migration modifies the legacy file", f"{fi.mod.relpath}:{c.lineno}")
 
 
 def trigger(prog, rep):
